@@ -22,8 +22,8 @@ REGISTRY = {
     "C07": dict(
         level="fault_enumeration",
         units=[
-            dict(pkg=APP, test="TestVerifC07", quick=480, thorough=4000, shards_quick=16, shards_thorough=16),
-            dict(pkg=APP, test="TestVerifC07Enumerate", mode="enum", tiers=("thorough",), thorough=150, shards_thorough=16),
+            dict(pkg=APP, test="TestVerifC07", quick=960, thorough=16000, shards_quick=16, shards_thorough=16),
+            dict(pkg=APP, test="TestVerifC07Enumerate", mode="enum", quick=150, thorough=150, shards_quick=16, shards_thorough=16),
         ],
     ),
     "C01": dict(
